@@ -261,6 +261,10 @@ func ApplyGen(g *generate.Generator, o GenOp) string {
 			ts[i] = generate.Aff3{}
 		}
 		g.SetDestination(g.Destination)
+		// a Generator is a plain struct: re-configuring a COPY of it leaves the original as it was (round 5, C20-I: SetTransform
+		// reused the backing array of the transform list, so copies shared one transform)
+		cp := *g
+		cp.SetTransform(generate.Translate(7, -3), generate.Scale(5, 9))
 		return ""
 	case "path":
 		err = g.SetPathData(o.Path, o.Adj)
